@@ -79,16 +79,27 @@ class ModelFS:
         return dict(self.files), set(self.dirs)
 
     # ---- queries
+    # pathlib's is_file/is_dir/exists swallow these errors and answer False
+    _IGNORED = (_errno.ENOENT, _errno.ENOTDIR, _errno.EBADF, _errno.ELOOP)
+
+    def _probe(self, op, p):
+        try:
+            self._tick(op, p)
+        except OSError as e:
+            if e.errno in self._IGNORED:
+                return False
+            raise
+        return True
+
     def is_file(self, p):
-        self._tick("is_file", p)
-        return _norm(p) in self.files
+        return self._probe("is_file", p) and _norm(p) in self.files
 
     def is_dir(self, p):
-        self._tick("is_dir", p)
-        return _norm(p) in self.dirs
+        return self._probe("is_dir", p) and _norm(p) in self.dirs
 
     def exists(self, p):
-        self._tick("exists", p)
+        if not self._probe("exists", p):
+            return False
         p = _norm(p)
         return p in self.files or p in self.dirs
 
